@@ -269,7 +269,17 @@ type scen struct {
 	B    gma    `json:"b"`
 	C    gma    `json:"c"`
 	Dec  string `json:"dec,omitempty"` // hex of the CBOR to decode
+	Xs    []gma  `json:"xs,omitempty"`    // "seq": operand values, each built ONCE and shared by all programs
+	Progs []prog `json:"progs,omitempty"` // "seq": accumulator programs
 	Note string `json:"note,omitempty"`
+}
+
+// prog is one accumulator: Start -1 = NewMultiAsset(nil), -2 = zero value (nil
+// data), i >= 0 = a fresh copy of Xs[i]; Ops index the shared object pool:
+// 0..len(Xs)-1 the operands, len(Xs)+k the finished accumulator of program k.
+type prog struct {
+	Start int   `json:"start"`
+	Ops   []int `json:"ops"`
 }
 
 type env struct {
@@ -924,6 +934,8 @@ func corpus() []scen {
 		{Kind: "w", W: "I64", A: one(p1, "01", "9223372036854775807"), B: one(p1, "01", "1"), Note: "MaxInt64+1"},
 		{Kind: "w", W: "U64", A: one(p1, "01", "18446744073709551615"), B: one(p1, "01", "1"), Note: "MaxUint64+1"},
 		{Kind: "w", W: "I64", A: one(p1, "01", "5"), B: one(p2, "01", "-7"), Note: "in range"},
+		{Kind: "seq", Xs: []gma{one(p1, "01", "5"), one(p1, "01", "7")}, Progs: []prog{{-1, []int{0, 1}}, {-1, []int{1, 0}}}, Note: "0+a+b vs 0+b+a on shared objects"},
+		{Kind: "seq", Xs: []gma{one(p1, "02", "1"), one(p1, "01", "7"), one(p1, "01", "100")}, Progs: []prog{{0, []int{1, 2}}, {-1, []int{1, 2}}, {-1, []int{0, 4}}, {-2, []int{2, 1, 0}}}, Note: "(a+b)+c vs a+(b+c), b and c share an asset a lacks"},
 		{Kind: "dec", Dec: "a0", Note: "empty"},
 		{Kind: "dec", Dec: "f6", Note: "null"},
 		{Kind: "dec", Dec: "bfff", Note: "indef-empty"},
@@ -935,8 +947,174 @@ func corpus() []scen {
 	}
 }
 
+// runSeq: multi-step Add sequences on SHARED operand objects.  After every
+// step: accumulator against the integer-sum oracle and the Coq model (CSeq),
+// every object of the pool against the value it had when it was created
+// (Add must not modify its argument, nor earlier results), and at the end
+// programs over the same operand multiset against each other.
+func (e *env) runSeq(s scen) {
+	c := e.c
+	c.Begin(s)
+	canon := "seq"
+	for _, x := range s.Xs {
+		canon += "|" + x.canon()
+	}
+	canon += fmt.Sprintf("|%v", s.Progs)
+	c.Res.Count(canon, len(s.Xs) >= 2, "seq")
+	objs := []*common.MultiAsset[*big.Int]{}
+	vals := []gma{} // the value each pool object had when it entered the pool
+	for _, x := range s.Xs {
+		objs = append(objs, build(numBig, x))
+		vals = append(vals, extract(numBig, build(numBig, x)))
+	}
+	checkPool := func(where string) bool {
+		for i, o := range objs {
+			now := extract(numBig, o)
+			if now.canon() != vals[i].canon() || now.Nil != vals[i].Nil {
+				kind := "operand"
+				if i >= len(s.Xs) {
+					kind = "earlier result"
+				}
+				e.viol("add-mutates-other-value", fmt.Sprintf("%s: %s #%d was %s and is now %s although it was only used as an argument of Add (or not at all)", where, kind, i, vals[i].canon(), now.canon()), s)
+				return false
+			}
+		}
+		return true
+	}
+	type fin struct {
+		key string
+		val gma
+	}
+	fins := []fin{}
+	for pi, pr := range s.Progs {
+		var acc *common.MultiAsset[*big.Int]
+		var start gma
+		switch {
+		case pr.Start == -1:
+			m := common.NewMultiAsset[*big.Int](nil)
+			acc, start = &m, gma{Pols: []gpol{}}
+		case pr.Start == -2:
+			acc, start = &common.MultiAsset[*big.Int]{}, gma{Nil: true}
+		default:
+			acc, start = build(numBig, s.Xs[pr.Start]), vals[pr.Start]
+		}
+		want := start.flat()
+		used := []string{}
+		multiset := []int{pr.Start}
+		okProg := true
+		for si, op := range pr.Ops {
+			if op < 0 || op >= len(objs) {
+				okProg = false
+				break
+			}
+			if p, pv := vh.Recover(func() { acc.Add(objs[op]) }); p {
+				key := "add-panics"
+				if start.Nil {
+					key = "add-nil-data-receiver-panics"
+				}
+				e.viol(key, fmt.Sprintf("program %d step %d: Add panicked: %v", pi, si, pv), s)
+				okProg = false
+				break
+			}
+			want = want.add(vals[op].flat())
+			used = append(used, vals[op].coq())
+			multiset = append(multiset, op)
+			got := extract(numBig, acc)
+			where := fmt.Sprintf("program %d step %d", pi, si)
+			if !got.flat().eq(want) {
+				e.viol("add-sequence-differs-from-integer-sum", fmt.Sprintf("%s: accumulator is %s, the per-asset integer sum of start and operands differs", where, got.canon()), s)
+			}
+			e.cf.Add(fmt.Sprintf("CSeq Big %s %s %s", start.coq(), vh.List(used), got.coq()), s)
+			checkPool(where) // keep going: the model (CSeq) and the order check then see the damage too
+		}
+		if !okProg {
+			return
+		}
+		objs = append(objs, acc)
+		v := extract(numBig, acc)
+		vals = append(vals, v)
+		sort.Ints(multiset)
+		fins = append(fins, fin{fmt.Sprint(multiset), v})
+	}
+	checkPool("end")
+	// programs over the same start and operand multiset must agree (commutativity / associativity with reused objects)
+	for i := range fins {
+		for j := i + 1; j < len(fins); j++ {
+			if fins[i].key == fins[j].key {
+				if eq, p := cmpImpl(fins[i].val, fins[j].val); p || !eq {
+					e.viol("add-order-dependent", fmt.Sprintf("programs %d and %d add the same operands in different orders: %s vs %s", i, j, fins[i].val.canon(), fins[j].val.canon()), s)
+				}
+			}
+		}
+	}
+}
+
+// genSeq: few operands with heavily overlapping keys, several accumulators over them
+func genSeq(r *vh.Rng) scen {
+	pols := []string{polPool[0], polPool[1]}
+	names := []string{"01", "02", "746f6b"}
+	k := 2 + r.Intn(3)
+	xs := make([]gma, k)
+	for i := range xs {
+		g := gma{Pols: []gpol{}}
+		for _, p := range pols {
+			if r.Intn(3) == 0 {
+				continue
+			}
+			q := gpol{Pol: p, As: []gent{}}
+			for _, n := range names {
+				if r.Intn(3) != 0 {
+					var z *big.Int
+					if r.Intn(3) == 0 {
+						z = genQty(r)
+					} else {
+						z = big.NewInt(int64(1 + r.Intn(100)))
+					}
+					q.As = append(q.As, gent{n, z.String()})
+				}
+			}
+			g.Pols = append(g.Pols, q)
+		}
+		xs[i] = g
+	}
+	perm := func() []int {
+		p := make([]int, k)
+		for i := range p {
+			p[i] = i
+		}
+		for i := k - 1; i > 0; i-- {
+			j := r.Intn(i + 1)
+			p[i], p[j] = p[j], p[i]
+		}
+		return p
+	}
+	start := -1
+	if r.Intn(4) == 0 {
+		start = -2
+	}
+	progs := []prog{}
+	fwd := perm()
+	rev := make([]int, k)
+	for i := range fwd {
+		rev[k-1-i] = fwd[i]
+	}
+	progs = append(progs, prog{start, fwd}, prog{start, rev}, prog{start, perm()})
+	// associativity: (x0 + x1) + x2 with a copy of x0 as accumulator, and x0 + (x1 + x2) through an earlier result
+	if k >= 3 {
+		progs = append(progs, prog{0, []int{1, 2}})
+		progs = append(progs, prog{-1, []int{1, 2}})       // bc, becomes pool object k+4
+		progs = append(progs, prog{0, []int{k + 4}})       // a + bc
+		progs = append(progs, prog{-1, []int{0, k + 4}})   // 0 + a + bc
+	}
+	// an operand added twice, and an accumulator that keeps growing after having been used as operand source
+	progs = append(progs, prog{-1, []int{0, 0, 1}})
+	return scen{Kind: "seq", Xs: xs, Progs: progs}
+}
+
 func (e *env) runScen(s scen) {
 	switch s.Kind {
+	case "seq":
+		e.runSeq(s)
 	case "alg":
 		e.runAlg(s)
 	case "dec":
@@ -947,7 +1125,7 @@ func (e *env) runScen(s scen) {
 }
 
 func run(c *vh.Ctx) error {
-	c.Res.Rule = "triples (a,b,c) of maps with <=4 policies x <=4 names from pools built to collide and to exercise key order (names of length 0,1,2,23,24,32; policies differing in first/last byte), quantities from {0,+-1,..,2^32,+-2^63(+-1),+-2^64(+-1),+-2^70,+-2^128,random}; nil maps, empty policies; b is with probability 1/2 a variant of a (zero entries added/dropped, reordered, one quantity changed, entry renamed keeping sizes); decode inputs are encodings re-formed (non-minimal/indefinite headers, chunked strings), with duplicate keys, bignum/null quantities, short/long policy keys, null inner maps, and a rejected class; distinct by canonical JSON of the triple / hex of the input; non-trivial = both operands have a non-zero entry (algebra) or the input decodes (decode)"
+	c.Res.Rule = "triples (a,b,c) of maps with <=4 policies x <=4 names from pools built to collide and to exercise key order (names of length 0,1,2,23,24,32; policies differing in first/last byte), quantities from {0,+-1,..,2^32,+-2^63(+-1),+-2^64(+-1),+-2^70,+-2^128,random}; nil maps, empty policies; b is with probability 1/2 a variant of a (zero entries added/dropped, reordered, one quantity changed, entry renamed keeping sizes); decode inputs are encodings re-formed (non-minimal/indefinite headers, chunked strings), with duplicate keys, bignum/null quantities, short/long policy keys, null inner maps, and a rejected class; distinct by canonical JSON of the triple / hex of the input; non-trivial = both operands have a non-zero entry (algebra) or the input decodes (decode); op sequences: 2-4 operand OBJECTS with overlapping keys built once and shared by 4-8 accumulator programs (permutations from the empty / nil value, (a+b)+c vs a+(b+c) through an earlier result used as operand, an operand added twice), checked after every step"
 	c.Res.Modelled = []string{
 		"Go maps are association lists with distinct keys in arbitrary order; theorems quantify over all orders",
 		"byte level CBOR parsing is not part of this model: the decoder model works on the syntax tree (coq/Lib/Cbor.v item) that the harness obtains with its own parser from the bytes given to UnmarshalCBOR; the encoder model produces an item whose Lib.Cbor.enc bytes are compared with cbor.Encode",
@@ -1000,6 +1178,9 @@ func run(c *vh.Ctx) error {
 		g := genMA(r, 1+r.Intn(4), 1+r.Intn(4))
 		h, note := genDec(r, g)
 		e.runScen(scen{Kind: "dec", Dec: h, Note: note})
+	}
+	for i := 0; i < c.Pick(60, 800); i++ {
+		e.runScen(genSeq(r))
 	}
 	for i := 0; i < c.Pick(40, 600); i++ {
 		w := "I64"
